@@ -19,7 +19,7 @@ import (
 var judgedOps = map[string]string{
 	"C01": "put del get sync list fold batch dump",
 	"C02": "restart",
-	"C03": "",
+	"C03": "batch",
 	"C04": "batch",
 	"C05": "batch",
 	"C06": "merge restart",
